@@ -1464,6 +1464,48 @@ func (b *Builder) PointerTwin(name string) {
 	b.label("skipcopy:pointer-twin")
 }
 
+// RecursiveLate declares a method over a wrapper of a recursive struct pair whose helper methods
+// are generated: X{Child *X | []X | map[string]X; Val P} -> Y{...}, with P -> Q converted by a
+// custom function that may need a context and may return an error. The helper for the recursive
+// member is generated before the function call is met, so what the function needs (context
+// argument, error result) has to reach helpers that were finished earlier.
+func (b *Builder) RecursiveLate(name string) *model.Method {
+	id := b.id()
+	ps, pt := b.structNames(b.id())
+	b.A.Types = append(b.A.Types, &spec.TypeDecl{Name: ps, U: spec.Struct(spec.F("V", spec.Basic("int")))})
+	b.B.Types = append(b.B.Types, &spec.TypeDecl{Name: pt, U: spec.Struct(spec.F("V", spec.Basic("int")))})
+	p, q := spec.Named(b.A.Key, ps), spec.Named(b.B.Key, pt)
+	f := b.newFunc(p, q, true)
+	b.Conv.Extends = append(b.Conv.Extends, f)
+	b.extendDoc = append(b.extendDoc, "extend "+f.Name)
+	b.extPairs = append(b.extPairs, namedPair{p, q})
+	xn, yn := fmt.Sprintf("RecS%d", id), fmt.Sprintf("RecT%d", id)
+	x, y := spec.Named(b.A.Key, xn), spec.Named(b.B.Key, yn)
+	var cs, ct *spec.T
+	switch b.draw(3, "recursive-late-via") {
+	case 0:
+		cs, ct = spec.Ptr(x), spec.Ptr(y)
+	case 1:
+		cs, ct = spec.Slice(x), spec.Slice(y)
+	default:
+		cs, ct = spec.Map(spec.Basic("string"), x), spec.Map(spec.Basic("string"), y)
+	}
+	fx := []spec.Field{spec.F("Child", cs), spec.F("Val", p)}
+	fy := []spec.Field{spec.F("Child", ct), spec.F("Val", q)}
+	if b.coin("recursive-late-function-first") {
+		fx[0], fx[1] = fx[1], fx[0]
+		fy[0], fy[1] = fy[1], fy[0]
+	}
+	b.A.Types = append(b.A.Types, &spec.TypeDecl{Name: xn, U: spec.Struct(fx...)})
+	b.B.Types = append(b.B.Types, &spec.TypeDecl{Name: yn, U: spec.Struct(fy...)})
+	wn, zn := fmt.Sprintf("RecWrapS%d", id), fmt.Sprintf("RecWrapT%d", id)
+	b.A.Types = append(b.A.Types, &spec.TypeDecl{Name: wn, U: spec.Struct(spec.F("X", x))})
+	b.B.Types = append(b.B.Types, &spec.TypeDecl{Name: zn, U: spec.Struct(spec.F("X", y))})
+	b.label("shape:recursive-late")
+	m, _ := b.declare(name, spec.Named(b.A.Key, wn), spec.Named(b.B.Key, zn))
+	return m
+}
+
 // StructMethod declares a top-level converter method whose pair is a named struct pair.
 func (b *Builder) StructMethod(name string, depth int) *model.Method {
 	if depth < 1 {
